@@ -434,7 +434,7 @@ func sortEntries(in io.ReaderAt, prioritized []string, missedPrioritized *[]stri
 	sorted := &tarFile{}
 	picked := make(map[string]struct{})
 	for _, l := range prioritized {
-		if err := moveRec(l, intar, sorted, picked); err != nil {
+		if err := moveRec(l, intar, sorted, picked, make(map[string]struct{})); err != nil {
 			if errors.Is(err, errNotFound) && missedPrioritized != nil {
 				*missedPrioritized = append(*missedPrioritized, l)
 				continue // allow not found
@@ -525,7 +525,9 @@ func importTar(in io.ReaderAt) (*tarFile, error) {
 	return tf, nil
 }
 
-func moveRec(name string, in *tarFile, out *tarFile, picked map[string]struct{}) error {
+// visiting holds the names the current walk is still working on; coming back to one of them
+// means that hardlinks (together with the parent directories) form a loop.
+func moveRec(name string, in *tarFile, out *tarFile, picked map[string]struct{}, visiting map[string]struct{}) error {
 	name = cleanEntryName(name)
 	if name == "" { // root directory. stop recursion.
 		if e, ok := in.get(name); ok {
@@ -546,6 +548,12 @@ func moveRec(name string, in *tarFile, out *tarFile, picked map[string]struct{})
 		return fmt.Errorf("file: %q: %w", name, errNotFound)
 	}
 
+	if _, ok := visiting[name]; ok {
+		return fmt.Errorf("file: %q: hardlink loop", name)
+	}
+	visiting[name] = struct{}{}
+	defer delete(visiting, name)
+
 	parent, _ := path.Split(strings.TrimSuffix(name, "/"))
 	// A directory without a tar entry of its own has nothing to move; continue with its parent.
 	for cleanEntryName(parent) != "" {
@@ -554,11 +562,11 @@ func moveRec(name string, in *tarFile, out *tarFile, picked map[string]struct{})
 		}
 		parent, _ = path.Split(strings.TrimSuffix(cleanEntryName(parent), "/"))
 	}
-	if err := moveRec(parent, in, out, picked); err != nil {
+	if err := moveRec(parent, in, out, picked, visiting); err != nil {
 		return err
 	}
 	if e, ok := in.get(name); ok && e.header.Typeflag == tar.TypeLink {
-		if err := moveRec(e.header.Linkname, in, out, picked); err != nil {
+		if err := moveRec(e.header.Linkname, in, out, picked, visiting); err != nil {
 			return err
 		}
 	}
